@@ -44,6 +44,18 @@ class P(framework.Prop):
             out.append("parse " + wire.s(gen.render(rng, [rng.choice(gen.SOUP) for _ in range(n)])))
         for e in LEX:
             out.append("parse " + wire.s(e))
+        # empty and one-token bracket / brace / parenthesis bodies (with and without inner white space) in every position a bracket can take
+        BODIES = ["", " ", "\n", "\t ", "?", " ?", "? ", "*", " * ", ":", " : ", "0", " 0 ", ",", "a,", ",a", "a", " a ", "&a", "a:b", "a:", ":b", "?a", "? a ", "-", "-1", "- 1", "1 2"]
+        OPEN = [("[", "]"), (".[", "]"), ("{", "}"), (".{", "}"), ("(", ")"), ("f(", ")"), (".f(", ")"), ("[?", "]"), (".[?", "]"), ("[ ", "]"), (". [", "]")]
+        PRE = ["", "a", "a.b", "a[*]", "a[]", "*", "a[0]", "a[?b]", "a |", "!", "a ||", "[", "{k:", "f("]
+        POST = {"": "", "[": "]", "{k:": "}", "f(": ")"}
+        for pre in PRE:
+            for (o, c) in OPEN:
+                for b in BODIES:
+                    if tier != "quick" or rng.random() < 0.5:
+                        out.append("parse " + wire.s(pre + o + b + c + POST.get(pre, "")))
+                        if rng.random() < 0.3:
+                            out.append("parse " + wire.s(pre + o + b + c + rng.choice([".c", "[0]", " | d", "[*]", ".[e]"]) + POST.get(pre, "")))
         for f, given, e, c in gen.compliance_cases():
             out.append("parse " + wire.s(e))
         return out
